@@ -396,6 +396,8 @@ static void h_op(void)
     esl_verif_buffer_forcemode = 0;
     if      (!strcmp(kind, "file"))  status = esl_buffer_OpenFile("h_buffer_no_such_file", &b2);
     else if (!strcmp(kind, "open"))  status = esl_buffer_Open("h_buffer_no_such_file", NULL, &b2);
+    else if (!strcmp(kind, "dir"))     status = esl_buffer_OpenFile(".", &b2);          /* 5d94071: a directory is refused (fopen() succeeds on it) */
+    else if (!strcmp(kind, "opendir")) status = esl_buffer_Open("..", NULL, &b2);
     else if (!strcmp(kind, "pipe"))  status = esl_buffer_OpenPipe("h_buffer_no_such_file", "cat %s", &b2);
     else if (!strcmp(kind, "cmd"))   { if (!bf || !g_tmp_live) { h_out("bad-op"); return; } status = esl_buffer_OpenPipe(g_tmp, "false %s 2>/dev/null", &b2); }
     else { h_out("bad-op"); return; }
@@ -405,6 +407,11 @@ static void h_op(void)
     return;
   }
   if (!bf) { h_out("bad-op"); return; }
+  if (!strcmp(op, "window")) {
+    /* where the window stands: a stream whose window never moves on (an anchor or bf->stable that is not released) is kept in memory for ever */
+    h_out("ok base=%" PRId64 " n=%" PRId64, (int64_t) bf->baseoffset, (int64_t) bf->n);
+    return;
+  }
   if (!strcmp(op, "checkstable")) {
     /* read through every pointer handed out since the stable anchor was set ("remain valid at least until the anchor is raised"):
      * if buffer_refill() freed the block they point into, ASan stops us here (heap-use-after-free) */
